@@ -1,4 +1,7 @@
 import Driver.C08
+import Driver.C11
+import Driver.SqlTx
+import Driver.C14
 import Driver.C07
 import Driver.C02
 import Driver.C19
@@ -17,6 +20,10 @@ namespace Driver
 
 structure State where
   c08 : C08.St := {}
+  c13 : SqlTx.St := {}
+  c12 : SqlTx.St := {}
+  c11 : C11.St := {}
+  c14 : C14.St := {}
   c07 : C07.St := {}
   c02 : C02.St := {}
   c19 : C19.St := {}
@@ -47,6 +54,10 @@ def step (st : State) (line : String) : State × String :=
   | "c19" :: rest => let (s, o) := C19.step st.c19 rest; ({ st with c19 := s }, o)
   | "c02" :: rest => let (s, o) := C02.step st.c02 rest; ({ st with c02 := s }, o)
   | "c07" :: rest => let (s, o) := C07.step st.c07 rest; ({ st with c07 := s }, o)
+  | "c14" :: rest => let (s, o) := C14.step st.c14 rest; ({ st with c14 := s }, o)
+  | "c11" :: rest => let (s, o) := C11.step st.c11 rest; ({ st with c11 := s }, o)
+  | "c12" :: rest => let (s, o) := SqlTx.step' true st.c12 rest; ({ st with c12 := s }, o)
+  | "c13" :: rest => let (s, o) := SqlTx.step' false st.c13 rest; ({ st with c13 := s }, o)
   | ["sha", h] => (st, match Bytes.ofHex h with | some b => Bytes.toHex (Sha256.sum b) | none => "bad-op")
   | _ => (st, "bad-op")
 
